@@ -368,6 +368,7 @@ def leg_bf_behaviour(ctx, corr, ncases, tagbase='bfb', collect=None, tie=True):
         body = []
         cases = []
         for ci in range(pi, min(ncases, pi + per_prog)):
+            mark = len(src)
             st = gen_bf_struct(rng, ci)
             size, al, pl = layout(st)
             named = [(m, p) for m, p in zip(st[2], pl) if m['name'] and m.get('bits')]
@@ -410,7 +411,8 @@ def leg_bf_behaviour(ctx, corr, ncases, tagbase='bfb', collect=None, tie=True):
             body.append(f'  {{ {pre} memset({obj}, {pat}, {szexpr}); long r = ({lv} = {v}L); printf("{k} r=%ld\\n", r); '
                         f'dump("{k}", {obj}, {szexpr}); {reads} }}')
             cases.append({'k': k, 'struct': agg_body(st), 'field': f, 'type': m['bf'], 'w': bw, 'o': bo, 'off': off, 'form': form,
-                          'pattern': pat, 'value': v, 'lvalue': lv, 'qoff': qoff})
+                          'pattern': pat, 'value': v, 'lvalue': lv, 'qoff': qoff,
+                          'mini': '\n'.join(src[:3] + src[mark:]) + '\nint main(void) {\n' + body[-1] + '\n  return 0;\n}\n'})
         src.append('int main(void) {')
         src += body
         src.append('  return 0;\n}')
@@ -467,7 +469,7 @@ def leg_bf_behaviour(ctx, corr, ncases, tagbase='bfb', collect=None, tie=True):
                 v = {'what': 'store through a bit-field lvalue: bytes / read-back / assignment value differ from gcc',
                      'input': {'struct': c['struct'], 'statement': f"memset(obj, {c['pattern']}, size); r = ({c['lvalue']} = {c['value']}L);",
                                'field': f"{BF_TYPES[c['type']][0]} {c['field']}:{w} at byte {c['off']} bit {c['o']}", 'access': c['form']},
-                     'expected': g, 'got': ch, 'model_unit': mline['unit'], 'program': src if len(src) < 6000 else None}
+                     'expected': g, 'got': ch, 'model_unit': mline['unit'], 'program': c['mini']}
                 corr.violations.append(v); viol.append(v)
                 if collect is None:
                     return viol
@@ -478,7 +480,8 @@ def leg_bf_behaviour(ctx, corr, ncases, tagbase='bfb', collect=None, tie=True):
             if tie and cimg[2 * base:2 * (base + s)] != unit_model:
                 corr.disagreements.append({'kind': 'bfmodel vs executed program', 'case': c, 'model_unit': unit_model, 'image': cimg, 'unit_at': base})
                 return viol
-    corr.sample({'bit-field store': {k: allcases[-1][k] for k in ('struct', 'lvalue', 'value', 'pattern', 'form')}})
+    if allcases:
+        corr.sample({'bit-field store': {k: allcases[-1][k] for k in ('struct', 'lvalue', 'value', 'pattern', 'form')}})
     return viol
 
 # ------------------------------------------------------------------ leg C: general aggregates, paths, copies, zero fill
@@ -570,6 +573,7 @@ def leg_aggregates(ctx, corr, ncases, tagbase='agg', collect=None, tie=True):
         body, cases = [], []
         for ci in range(pi, min(ncases, pi + per_prog)):
             nm = Namer(ci)
+            mark = len(src)
             for _ in range(20):
                 st = gen_agg(rng, nm, rng.randrange(0, 3))
                 st = (st[0], f'T{ci}', st[2])
@@ -634,6 +638,7 @@ def leg_aggregates(ctx, corr, ncases, tagbase='agg', collect=None, tie=True):
                 c['zerofill'] = True
                 c['driver'] = None
             body.append(f'  {{ {b} }}')
+            c['mini'] = '\n'.join(src[:4] + src[mark:]) + '\nint main(void) {\n' + body[-1] + '\n  return 0;\n}\n'
             cases.append(c)
         src.append('int main(void) {')
         src += body
@@ -680,7 +685,7 @@ def leg_aggregates(ctx, corr, ncases, tagbase='agg', collect=None, tie=True):
             if masked(g) != masked(ch):
                 v = {'what': f'access through an lvalue ({c["kind"]}): object bytes / offset differ from gcc',
                      'input': {'type': c['type'], 'path': c['path'], 'kind': c['kind'], 'pattern': c['pattern'], 'value': c['value']},
-                     'expected': masked(g), 'got': masked(ch), 'program': src if len(src) < 8000 else None}
+                     'expected': masked(g), 'got': masked(ch), 'program': c['mini']}
                 corr.violations.append(v); viol.append(v)
                 if collect is None:
                     return viol
@@ -690,7 +695,7 @@ def leg_aggregates(ctx, corr, ncases, tagbase='agg', collect=None, tie=True):
                 if any(set(h) != {'0'} for h in imgs):
                     v = {'what': 'partially initialised local: bytes outside the initialised members are not zero (ND_MEMZERO)',
                          'input': {'type': c['type'], 'statement': 'T s = {0}; T a[2] = {0}; after a call that filled the stack with 0xEE'},
-                         'expected': 'all bytes 00', 'got': imgs, 'program': src if len(src) < 8000 else None}
+                         'expected': 'all bytes 00', 'got': imgs, 'program': c['mini']}
                     corr.violations.append(v); viol.append(v)
                     if collect is None:
                         return viol
